@@ -71,15 +71,77 @@ Fixpoint run_segments (d : disc) (p : program) (cp : cprog) (t0 : Z) (segs : lis
       end
   end.
 
-(* every delay line has at least one slot (what the generator / the real front end produce) *)
-Fixpoint delays_pos (e : expr) : bool :=
-  match e with
-  | ELit _ | EVar _ | ENow | ESr | ESelf => true
-  | EBin _ a b => delays_pos a && delays_pos b
-  | ENeg a => delays_pos a
-  | ELet _ a b => delays_pos a && delays_pos b
-  | EIf c t e' => delays_pos c && delays_pos t && delays_pos e'
-  | ECall _ args => forallb delays_pos args
-  | EMem a => delays_pos a
-  | EDelay n a t => (0 <? n)%N && delays_pos a && delays_pos t
+(* ---------- C07: voices ---------- *)
+(* effective next free state offset of a compile-time context (push_sum + pending offset) *)
+Definition eff (c : cctx) : N := (snd c + match fst c with Some o => o | None => 0 end)%N.
+
+(* the flat range (offset, size) of each output expression ("voice") of dsp *)
+Fixpoint outs_ranges (fe : cenv) (outs : list expr) (c : cctx) : list (N * N) :=
+  match outs with
+  | [] => []
+  | e :: rest =>
+      match compile_expr fe e c with
+      | Some (_, s, c1) => (eff c, skels_size s) :: outs_ranges fe rest c1
+      | None => []
+      end
+  end.
+
+Definition voice_range (p : program) (j : nat) : option (N * N) :=
+  match compile_funs (fun _ => None) (p_funs p) with
+  | Some fe =>
+      match compile_lets fe (p_lets p) (None, 0%N) with
+      | Some (_, _, c1) => nth_error (outs_ranges fe (p_outs p) c1) j
+      | None => None
+      end
+  | None => None
+  end.
+
+(* a voice that depends on the dsp inputs only (and no `let` shadows an input) *)
+Definition closed_voice (p : program) (e : expr) : bool :=
+  match wf_funs [] (p_funs p) with
+  | Some g =>
+      wf_expr g false (p_inputs p) e &&
+      forallb (fun xe => negb (mem_id (fst xe) (p_inputs p))) (p_lets p)
+  | None => false
+  end.
+
+(* the reference stream of one voice alone, from its own state tree *)
+Fixpoint voice_ref_run (funs : list fundef) (inputs : list ident) (e : expr) (t0 : Z)
+         (rows : list (list Z)) (sv : stree) : option (list Z * stree) :=
+  match rows with
+  | [] => Some ([], sv)
+  | i :: rest =>
+      match bind_params inputs i with
+      | Some r0 =>
+          match ref_eval (ref_fenv t0 (rev funs)) t0 0%Z r0 e sv with
+          | Some (v, sv') =>
+              match voice_ref_run funs inputs e (t0 + 1)%Z rest sv' with
+              | Some (vs, sv'') => Some (v :: vs, sv'')
+              | None => None
+              end
+          | None => None
+          end
+      | None => None
+      end
+  end.
+
+(* channel j of one sample's outputs *)
+Definition chan (j : nat) (o : option (list Z)) : option Z :=
+  match o with Some l => nth_error l j | None => None end.
+
+(* words [off2, off2+sz) of w2 are the words [off1, off1+sz) of w1 *)
+Definition words_eq_on (w1 : list Z) (off1 : N) (w2 : list Z) (off2 : N) (sz : N) : Prop :=
+  forall k, (k < sz)%N -> nth (N.to_nat (off2 + k)) w2 0%Z = nth (N.to_nat (off1 + k)) w1 0%Z.
+
+Definition words_zero_on (w : list Z) (off sz : N) : Prop :=
+  forall k, (k < sz)%N -> nth (N.to_nat (off + k)) w 0%Z = 0%Z.
+
+(* a hot swap: when the new program does not compile the swap does not happen; otherwise the storage is
+   migrated by `migrate old_skeleton new_skeleton old_words` into a fresh machine *)
+Definition hot_swap (migrate : skel -> skel -> list Z -> list Z) (p_new : program) (cur : cprog * mstate)
+  : cprog * mstate :=
+  match compile p_new with
+  | None => cur
+  | Some cp2 =>
+      (cp2, mkM (migrate (published_skeleton (fst cur)) (published_skeleton cp2) (m_words (snd cur))) 0%N [])
   end.
